@@ -1,22 +1,28 @@
 """C09, clause "identical plaquettes and adjacency tables (positions to single precision)".
 
-Theorem C09_roundtrip_tables (coq/Props/C09.v): two lattices with the same edges, crossings and vertex count have
-identical derived tables whenever preds_agree L L' = true, i.e. whenever no geometric predicate the code branches on
-(angular-sort comparator at every vertex, winding number of every face walk) changes its verdict.  This module
-EVALUATES the extracted preds_agree (driver c09p) on (original, pickled-and-restored) for the generated lattices with
-V <= VMAX, reports how often it holds, and confirms on the implementation that whenever it holds the tables of the
-original and of the restored lattice are identical.  Called from harness/c09.py."""
+Theorem C09_roundtrip_tables_weak (coq/Props/C09.v): two lattices with the same edges, crossings and vertex count have
+identical derived tables whenever preds_agree_weak L L' = true, i.e. whenever no geometric predicate the code branches
+on (angular-sort comparator at every vertex, orientation verdict of every face walk) changes its verdict.  This module
+EVALUATES the extracted predicates (driver c09p) on (original, pickled-and-restored) for lattices with V <= VMAX,
+reports how often they hold, and judges every difference between the implementation's tables of the original and of
+the restored lattice:
+  * predicates disagree -> res.violation("roundtrip:tables-differ-where-float32-flips-a-predicate") — a listed finding
+    (the property has no genericity clause; not repairable without giving up the float32 state);
+  * predicates agree    -> res.violation("tables-differ-although-predicates-agree") — unlisted, a real defect.
+Called from harness/c09.py (check_preds over the generated cases; judge_pair from the per-operation comparison)."""
 from lib import *  # noqa
 import gen
 import pickle
 from koala.lattice import Lattice
 
 VMAX = 200
+KEY_FLIP = "roundtrip:tables-differ-where-float32-flips-a-predicate"
+KEY_AGREE = "tables-differ-although-predicates-agree"
 # The exact model takes EXACT differences of the restored (float32) positions as edge vectors.  The implementation's
 # restored lattice holds a float32 position array, so numpy evaluates pos[k] - pos[j] in float32 arithmetic (one more
 # rounding, relative 2^-24 per component) before adding the crossing; its arctan2 is float64.  A lattice whose
 # smallest angular margin is below MARGIN may therefore legitimately order edges differently from the exact model:
-# such a difference is counted and skipped, never reported.
+# such a difference is counted and skipped (named), never reported.
 MARGIN = 1e-6
 
 
@@ -33,26 +39,188 @@ def ser_at_scale(pos, idx, cross, S):
     return " ".join(toks)
 
 
+def arrays_of(lat):
+    return (np.asarray(lat.vertices.positions, dtype=float).reshape(-1, 2), np.asarray(lat.edges.indices).reshape(-1, 2),
+            np.asarray(lat.edges.crossing).reshape(-1, 2))
+
+
+def pair_line(L, R):
+    """driver input for (original, restored), both exact on one common scale; None when a position is not finite"""
+    (pos, idx, cross), (rp, ri, rc) = arrays_of(L), arrays_of(R)
+    if not (np.all(np.isfinite(pos)) and np.all(np.isfinite(rp))):
+        return None
+    S = max(common_scale(pos), common_scale(rp))
+    return "pa " + ser_at_scale(pos, idx, cross, S) + " " + ser_at_scale(rp, ri, rc, S)
+
+
 def impl_tables(lat):
     """the implementation's counterparts of the model's [tables] (integers only; exceptions are outcomes)"""
     inv = lambda x: None if int(x) == INVALID else int(x)
     t = {}
     try:
-        t["adj"] = [[int(e) for e in row] for row in lat.vertices.adjacent_edges]
-        t["coordination"] = [int(x) for x in lat.vertices.coordination_numbers]
-        t["edge_adjacent_edges"] = [[int(e) for e in row] for row in lat.edges.adjacent_edges]
-        t["adjacency"] = np.asarray(lat.adjacency_matrix).astype(int).tolist() if lat.n_vertices <= 64 else None
+        t["vertices.adjacent_edges"] = [[int(e) for e in row] for row in lat.vertices.adjacent_edges]
+        t["vertices.coordination_numbers"] = [int(x) for x in lat.vertices.coordination_numbers]
+        t["edges.adjacent_edges"] = [[int(e) for e in row] for row in lat.edges.adjacent_edges]
+        t["adjacency_matrix"] = np.asarray(lat.adjacency_matrix).astype(int).tolist() if lat.n_vertices <= 64 else None
     except Exception as e:
-        t["exc0"] = type(e).__name__
+        t["exception(constructor tables)"] = type(e).__name__
     try:
         pl = lat.plaquettes
-        t["plaquettes"] = [([int(x) for x in p.vertices], [int(x) for x in p.edges], [int(x) for x in p.directions],
-                            [inv(x) for x in p.adjacent_plaquettes]) for p in pl]
-        t["ep"] = [[inv(a), inv(b)] for a, b in lat.edges.adjacent_plaquettes]
-        t["vp"] = [[inv(x) for x in row] for row in lat.vertices.adjacent_plaquettes]
+        t["plaquettes"] = [[[int(x) for x in p.vertices], [int(x) for x in p.edges], [int(x) for x in p.directions]] for p in pl]
+        t["plaquette.adjacent_plaquettes"] = [[inv(x) for x in p.adjacent_plaquettes] for p in pl]
+        t["edges.adjacent_plaquettes"] = [[inv(a), inv(b)] for a, b in lat.edges.adjacent_plaquettes]
+        t["vertices.adjacent_plaquettes"] = [[inv(x) for x in row] for row in lat.vertices.adjacent_plaquettes]
     except Exception as e:
-        t["exc"] = type(e).__name__
+        t["exception(plaquettes)"] = type(e).__name__
     return t
+
+
+def first_difference(tL, tR):
+    """'table[row]: a vs b' for the first differing table, and the list of all differing tables"""
+    keys = [k for k in list(tL) + [k for k in tR if k not in tL] if tL.get(k) != tR.get(k)]
+    if not keys:
+        return "", []
+    k = keys[0]
+    a, b = tL.get(k), tR.get(k)
+    if isinstance(a, list) and isinstance(b, list):
+        if len(a) != len(b):
+            return f"{k}: {len(a)} rows vs {len(b)} rows", keys
+        for i, (x, y) in enumerate(zip(a, b)):
+            if x != y:
+                return f"{k}[{i}] = {x} vs {y}", keys
+    return f"{k}: {str(a)[:80]} vs {str(b)[:80]}", keys
+
+
+# ------------------------------------------------------------------------------------------ which predicate flipped
+def _half(v):
+    X, Y = v[1], -v[0]
+    return 0 if (Y > 0 or (Y == 0 and X > 0)) else 1
+
+
+def _ang_lt(v, w):
+    hv, hw = _half(v), _half(w)
+    return hv < hw or (hv == hw and v[1] * (-w[0]) - (-v[0]) * w[1] > 0)
+
+
+def _outvecs(pos, idx, cross, v):
+    F = lambda x: Fraction(float(x))
+    out = []
+    for e, (j, k) in enumerate(idx):
+        if j == v or k == v:
+            w = (F(pos[k][0]) - F(pos[j][0]) + int(cross[e][0]), F(pos[k][1]) - F(pos[j][1]) + int(cross[e][1]))
+            out.append((e, w if j == v else (-w[0], -w[1])))
+    return out
+
+
+def describe_flip(L, R, m):
+    """exact (Fraction) re-evaluation of the comparator at the first vertex the model flags: names the predicate"""
+    (pos, idx, cross), (rp, _, _) = arrays_of(L), arrays_of(R)
+    bad = [int(x) for x in m["rot_bad_vertices"][1:]]
+    msgs = []
+    if bad:
+        v = bad[0]
+        oL, oR = _outvecs(pos, idx, cross, v), _outvecs(rp, idx, cross, v)
+        done = False
+        for (e, a), (_, a2) in zip(oL, oR):
+            if _half(a) != _half(a2):
+                side = "12 o'clock" if a[1] > 0 or a2[1] > 0 else "6 o'clock"
+                msgs.append(f"edge {e} leaves vertex {v} {'exactly' if a[0] == 0 else 'almost'} at {side}, the branch cut of the angular sort: "
+                            f"dx = {float(a[0]):.3g} becomes dx = {float(a2[0]):.3g} (dy = {float(a[1]):.3g}), so ang_lt changes its verdict"
+                            + (f"; same at {len(bad) - 1} more vertices {bad[1:6]}" if len(bad) > 1 else ""))
+                done = True
+                break
+        if not done:
+            for (e, a), (_, a2) in zip(oL, oR):
+                for (f, b), (_, b2) in zip(oL, oR):
+                    if not done and e != f and _ang_lt(a, b) != _ang_lt(a2, b2):
+                        cl, cr_ = a[0] * b[1] - a[1] * b[0], a2[0] * b2[1] - a2[1] * b2[0]
+                        msgs.append(f"edges {e} and {f} leave vertex {v} (almost) parallel: their cross product {float(cl):.3g} becomes {float(cr_):.3g}, "
+                                    f"so ang_lt changes its verdict" + (f"; same at {len(bad) - 1} more vertices {bad[1:6]}" if len(bad) > 1 else ""))
+                        done = True
+        if not done:
+            msgs.append(f"the angular-sort comparator changes a verdict at vertices {bad[:6]}")
+    vb = m.get("valid_bad_faces", ["0"])
+    if int(vb[0]) > 0:
+        i, w, w2, n = int(vb[1]), unhx(vb[2]), unhx(vb[3]), int(vb[4])
+        msgs.append(f"face walk {i} ({n} edges) has winding number {w} in the original and {w2} in the restored lattice (orientation filter 'winding = -1' flips)"
+                    + (f"; {int(vb[0]) - 1} more walks" if int(vb[0]) > 1 else ""))
+    return "; ".join(msgs) if msgs else "no predicate of the model changes its verdict"
+
+
+# ------------------------------------------------------------------------------------------ judging one pair
+def stats(res):
+    return res.extra.setdefault("preds_agree_across_roundtrip", {
+        "rule": f"generated lattices with 1 <= V <= {VMAX}; original float64 positions vs restored (float32) positions, both exact",
+        "evaluated": 0, "preds_agree_fine": 0, "preds_agree": 0, "preds_agree_weak": 0, "rot_agree_false": 0,
+        "valid_agree_false": 0, "walk_raises": 0, "positions_already_float32": 0,
+        "agree_and_impl_tables_identical": 0, "agree_but_near_degenerate_skipped": 0,
+        "disagree_and_impl_tables_differ": 0, "disagree_but_impl_tables_identical": 0, "disagreeing_cases": []})
+
+
+def judge(ctx, L, R, m, payload, count=True):
+    """m: driver answer for (L, R).  Compares the implementation's integer tables of L and R and reports a difference
+    under the key the predicates select.  Returns True when the integer tables differ (reported or named skip)."""
+    res = ctx.res
+    st = stats(res)
+    b = lambda k: m[k][0] == "1"
+    V, E = L.n_vertices, L.n_edges
+    if not b("same_connectivity"):
+        # "identical edges, crossings": reported by the main check (restored-values); the theorem does not apply
+        res.skip("preds:restored-connectivity-differs")
+        return False
+    if not b("round32_copy"):
+        ctx.k_mismatch(f"V={V}: the restored positions are not Model/Pickle.v's round32 of the original positions", payload)
+    if b("preds_weak") and not b("model_tables_equal"):
+        ctx.k_mismatch(f"V={V}: extracted model: preds_agree_weak holds but tables L <> tables L' (contradicts C09_roundtrip_tables_weak)", payload)
+    tL, tR = impl_tables(L), impl_tables(R)
+    where, keys = first_difference(tL, tR)
+    identical = not keys
+    agree = b("preds_weak")
+    if count:
+        st["evaluated"] += 1
+        for k, n in (("preds_fine", "preds_agree_fine"), ("preds", "preds_agree"), ("preds_weak", "preds_agree_weak")):
+            st[n] += b(k)
+        st["rot_agree_false"] += not b("rot")
+        st["valid_agree_false"] += not b("valid")
+        st["walk_raises"] += m["faces"][0] == "ERR"
+        if agree:
+            st["agree_and_impl_tables_identical"] += identical
+        else:
+            st["disagree_and_impl_tables_differ" if not identical else "disagree_but_impl_tables_identical"] += 1
+    if identical:
+        return False
+    if agree:
+        try:
+            mg = min(angular_margin(L), angular_margin(R))
+        except Exception:
+            mg = 0.0
+        if mg < MARGIN:
+            if count:
+                st["agree_but_near_degenerate_skipped"] += 1
+            res.skip("preds:tables-differ,predicates-agree,angular-margin<1e-6(float32 subtraction in the restored constructor)")
+        else:
+            res.violation(KEY_AGREE,
+                          f"V={V} E={E}: every geometric predicate keeps its verdict across the float32 round trip (preds_agree_weak = true, angular margin {mg:.3g}) "
+                          f"but the implementation's tables of original and restored lattice differ: {where} (differing tables: {keys})", payload)
+        return True
+    flip = describe_flip(L, R, m)
+    if count and len(st["disagreeing_cases"]) < 12:
+        st["disagreeing_cases"].append({"case": payload.get("case"), "V": V, "rot": b("rot"), "valid": b("valid"), "first_difference": where, "flip": flip})
+    res.violation(KEY_FLIP,
+                  f"V={V} E={E}: tables of original and restored lattice differ: {where} (differing tables: {keys}); flipped predicate: {flip}", payload)
+    return True
+
+
+def judge_pair(ctx, L, R, payload):
+    """one (original, restored) pair from the per-operation comparison of harness/c09.py; returns True when the integer
+    tables differ and the difference has been reported (or skipped by name) here"""
+    line = pair_line(L, R)
+    if line is None or "c09p" not in ctx.exe:
+        return False
+    m = run_driver(ctx.exe["c09p"], [line])[0]
+    if "error" in m:
+        raise RuntimeError(f"c09p driver: {m['error']} on {payload}")
+    return judge(ctx, L, R, m, payload, count=False)
 
 
 def check_preds(ctx, cases, vmax=VMAX):
@@ -60,12 +228,7 @@ def check_preds(ctx, cases, vmax=VMAX):
     if "c09p" not in ctx.exe:
         res.skip("c09p driver not built")
         return
-    st = res.extra.setdefault("preds_agree_across_roundtrip", {
-        "rule": f"generated lattices with 1 <= V <= {vmax}; original float64 positions vs restored (float32) positions, both exact",
-        "evaluated": 0, "preds_agree_fine": 0, "preds_agree": 0, "preds_agree_weak": 0, "rot_agree_false": 0,
-        "wind_agree_false": 0, "walk_raises": 0, "positions_already_float32": 0,
-        "agree_and_impl_tables_identical": 0, "agree_but_near_degenerate_skipped": 0,
-        "disagree_and_impl_tables_differ": 0, "disagree_but_impl_tables_identical": 0, "disagreeing_cases": []})
+    st = stats(res)
     todo, seen = [], set()
     for i, c in enumerate(cases):
         if c.get("huge"):
@@ -90,64 +253,21 @@ def check_preds(ctx, cases, vmax=VMAX):
         except Exception as e:           # reported by the main check (constructor-raised / roundtrip-raises)
             res.skip(f"preds:roundtrip-not-available:{type(e).__name__}")
             continue
-        rp = np.asarray(R.vertices.positions, dtype=float).reshape(-1, 2)
-        ri = np.asarray(R.edges.indices).reshape(-1, 2)
-        rc = np.asarray(R.edges.crossing).reshape(-1, 2)
-        if not (np.all(np.isfinite(pos)) and np.all(np.isfinite(rp))):
+        line = pair_line(L, R)
+        if line is None:
             res.skip("preds:non-finite-position")
             continue
-        S = max(common_scale(pos), common_scale(rp))
-        line = "pa " + ser_at_scale(pos, idx, cross, S) + " " + ser_at_scale(rp, ri, rc, S)
-        todo.append((i, c, L, R, line, bool(np.array_equal(pos, rp)), key))
+        todo.append((i, c, L, R, line, bool(np.array_equal(pos, arrays_of(R)[0])), key))
     outs = run_driver_parallel(ctx.exe["c09p"], [t[4] for t in todo])
     for (i, c, L, R, _, unchanged, key), m in zip(todo, outs):
         payload = {"kind": "preds", "case": c, "index": i}
         if "error" in m:
             raise RuntimeError(f"c09p driver: {m['error']} on {c}")
-        b = lambda k: m[k][0] == "1"
         V, E = L.n_vertices, L.n_edges
         fam = "preds/" + c["family"] + ("/" + c["base"]["family"] if "base" in c else "")
         res.count(fam, key if (V >= 2 and E >= 1) else None)
         res.traces += 1
-        st["evaluated"] += 1
         st["positions_already_float32"] += unchanged
-        if not b("same_connectivity"):
-            # "identical edges, crossings": the main check reports it (restored-values); nothing to evaluate here
-            res.skip("preds:restored-connectivity-differs")
-            continue
-        if not b("round32_copy"):
-            ctx.k_mismatch(f"V={V}: the restored positions are not Model/Pickle.v's round32 of the original positions", payload)
-        for k, n in (("preds_fine", "preds_agree_fine"), ("preds", "preds_agree"), ("preds_weak", "preds_agree_weak")):
-            st[n] += b(k)
-        st["rot_agree_false"] += not b("rot")
-        st["wind_agree_false"] += not b("wind")
-        st["walk_raises"] += m["faces"][0] == "ERR"
-        # the theorem, replayed on the extracted code: agreement of the predicates forces equal model tables
-        if b("preds_weak") and not b("model_tables_equal"):
-            ctx.k_mismatch(f"V={V}: extracted model: preds_agree_weak holds but tables L <> tables L' (contradicts C09_roundtrip_tables_weak)", payload)
-        tL, tR = impl_tables(L), impl_tables(R)
-        identical = tL == tR
-        if b("preds"):
-            if identical:
-                st["agree_and_impl_tables_identical"] += 1
-            else:
-                try:
-                    mg = min(angular_margin(L), angular_margin(R))
-                except Exception:
-                    mg = 0.0
-                if mg < MARGIN:
-                    st["agree_but_near_degenerate_skipped"] += 1
-                    res.skip("preds:near-degenerate-angles")
-                else:
-                    diff = [k for k in sorted(set(tL) | set(tR)) if tL.get(k) != tR.get(k)]
-                    res.violation("tables-differ-although-predicates-agree",
-                                  f"V={V} E={E}: every geometric predicate keeps its verdict across the float32 round trip (preds_agree, angular margin {mg:.3g}) "
-                                  f"but the implementation's tables of original and restored lattice differ in {diff}", payload)
-        else:
-            st["disagree_and_impl_tables_differ" if not identical else "disagree_but_impl_tables_identical"] += 1
-            if len(st["disagreeing_cases"]) < 12:
-                st["disagreeing_cases"].append({"case": c, "V": V, "rot": b("rot"), "wind": b("wind"), "valid": b("valid"),
-                                                "rot_bad_vertices": [int(x) for x in m["rot_bad_vertices"][1:]][:8],
-                                                "impl_tables_identical": identical})
+        judge(ctx, L, R, m, payload)
     if st["evaluated"]:
-        st["fraction_preds_agree"] = round(st["preds_agree"] / st["evaluated"], 4)
+        st["fraction_preds_agree_weak"] = round(st["preds_agree_weak"] / st["evaluated"], 4)
